@@ -611,7 +611,14 @@ func kdPhase(ctx *core.Ctx, cov *core.Cov, prop string) error {
 			want := kdPredict(run, p)
 			lines = append(lines, map[string]any{"ev": "R3", "p": p, "out": got.Out, "x": got.X, "bigx": got.BigX, "y": got.Y, "culprits": got.Culprits, "pred": want.Out})
 			if faults && p == c.Fault.From {
-				continue // the deviating party's own result is not judged
+				// the deviating party's own result is not judged; if it stopped for a reason the model does not name (a toy-group
+				// artefact) the run cannot be offered to TLC either
+				if want.Out == "ok" && (got.Out == "abort" || got.Out == "panic") {
+					ctx.Note("drift: %s: the deviating party itself stopped (%s %s, culprits %v) although the model lets it finish", c.id(), got.Out, got.Detail, got.Culprits)
+					cov.Add("toy_runs_stopped_for_unmodelled_reasons", 1)
+					badModel = true
+				}
+				continue
 			}
 			switch want.Out {
 			case "degenerate":
